@@ -234,6 +234,14 @@ def enzo_tables(out, net, entries, order, label, viols):
     wantf = [(v, "Electron" if i == "electron" else v[:-3]) for v, i in zip(var, ids)]
     if finds != wantf:
         viols.append((f"C09:enzo-identify:findfield", f"{label}: field lookups {finds}, expected {wantf}", None))
+    # species Grackle does not know: their charge-weighted contribution to the electron density, one line per charged
+    # species pairing its own field with its own charge and mass number; and the primitive-variable list
+    extra = [(sp, v) for sp, i, v in zip(net.species, ids, var) if i not in GRACKLE_ALIAS]
+    u = (out / "hydro_rk" / "Grid_UpdateElectronDensity.C").read_text()
+    got = re.findall(r"BaryonField\[DeNum\]\[i\]\s*\+=\s*(\S+)\s*\*\s*BaryonField\[(\S+?)\]\[i\]\s*/\s*(\S+?);", u)
+    wantu = [(f"{float(sp.charge):.1f}", v, str(sp.massnumber)) for sp, v in extra if sp.charge != 0]
+    if got != wantu:
+        viols.append((f"C09:enzo-electron-density", f"{label}: Grid_UpdateElectronDensity.C adds {got}, the charged non-Grackle species are {wantu} (charge, field, mass number)", None))
     t = (out / "typedefs.h").read_text()
     new = [(n, int(v)) for n, v in re.findall(r"^\s*(\S+)Density\s*=\s*(\d+),\s*$", t, re.M) if int(v) >= 104]
     wantn = [a for i, a in zip(ids, order) if i not in ENZO_DEFINED]
@@ -307,9 +315,9 @@ def run_case(arg):
             out = Path(tempfile.mkdtemp(dir=scratch()))
             try:
                 with quiet():
-                    EnzoPatch("cpu").render(net, templates=["naunet_enzo.h.j2", "Grid_NaunetWrapper.C.j2", "Grid_IdentifyNaunetSpeciesFields.C.j2", "typedefs.h.j2"], path=out)
+                    EnzoPatch("cpu").render(net, templates=["naunet_enzo.h.j2", "Grid_NaunetWrapper.C.j2", "Grid_IdentifyNaunetSpeciesFields.C.j2", "typedefs.h.j2", "hydro_rk/Grid_UpdateElectronDensity.C.j2"], path=out)
                 txt = (out / "naunet_enzo.h").read_text()
-                nart += 4
+                nart += 5
                 enzo_tables(out, net, entries, order, label, viols)
                 adef = re.findall(r"^#define\s+(A_\S+)\s+(\S+)\s*$", txt, re.M)
                 body = txt[txt.index("A_Table") :]
@@ -395,7 +403,7 @@ def run(ctx):
         "species identity of the reference: spellings e-/E are one species, '#H' and 'GH'(surface_prefix G) are one species, every other pool name is its own species",
         "upper-case convention (elements E,H,HE,C,O; replacement HE->He, E->e as in the bundled cloud example): HE/HE+/HE++/HEH+/#HE are helium species, E- is the electron; expected aliases follow the replaced names",
         "identifier legality: ^[A-Za-z_][A-Za-z0-9_]*$ and not a Python keyword",
-        "Enzo patch (naunet_enzo.h, Grid_NaunetWrapper.C, Grid_IdentifyNaunetSpeciesFields.C, typedefs.h): every per-species table lists each species once in slot order paired with its own field (Grackle's aliases De, HI, HII ... for the 12 Grackle species), new field types = species Enzo does not define, numbered from 104; count, order, distinctness and legality of the A_<alias> table and the ENZO_NSPECIES count (network U Grackle species by identity, minus the electron) are judged; grackle aliases intentionally differ from the macro aliases",
+        "Enzo patch (naunet_enzo.h, Grid_NaunetWrapper.C, Grid_IdentifyNaunetSpeciesFields.C, typedefs.h, hydro_rk/Grid_UpdateElectronDensity.C): every per-species table lists each species once in slot order paired with its own field (Grackle's aliases De, HI, HII ... for the 12 Grackle species), new field types = species Enzo does not define, numbered from 104; count, order, distinctness and legality of the A_<alias> table and the ENZO_NSPECIES count (network U Grackle species by identity, minus the electron) are judged; grackle aliases intentionally differ from the macro aliases",
     ]
     return {
         "evaluations": nart + ncli,
